@@ -21,6 +21,7 @@ EXPLANATION = (
 EXPLANATION_ADDED = 'R3 also requires the slices of a vectored Push to be appended by a plain forward iteration.'
 EXPLANATION = EXPLANATION + " Added while testing against seeded changes: " + EXPLANATION_ADDED
 EXPLANATION = EXPLANATION + ' Rounds 12-13: R7 also requires append_push_data to be total on every Push encoding: a length test on the way to the append accepts a header-only (5-octet) frame.'
+EXPLANATION = EXPLANATION + ' Rounds 14-15 and the value sweep: R1 / R3 require each integer field to be the value read / the field written itself (no arithmetic, no narrowing cast, no byte swapping); (R8) every Frame::new_* constructor stores its arguments as they are.'
 ASSUMPTIONS = [
     "bytes::Buf::get_uN/split_to and BufMut::put_uN read/write big-endian fixed widths and panic on under-run "
     "(library contract)",
